@@ -20,15 +20,25 @@ import (
 
 // gate: wraps a delegate; when armed, parks the calling goroutine after a refused (parkFail) or granted (parkOK) Acquire
 type gate struct {
-	d        core.Limiter
-	mu       sync.Mutex
+	d           core.Limiter
+	mu          sync.Mutex
 	parkFail    bool
 	parkOK      bool
 	parkRelease bool
+	parkBefore  bool // park the next Acquire before it reaches the delegate
 	parked      chan chan struct{}
 }
 
 func (g *gate) Acquire(ctx context.Context) (core.Listener, bool) {
+	g.mu.Lock()
+	pb := g.parkBefore
+	g.parkBefore = false
+	g.mu.Unlock()
+	if pb {
+		c := make(chan struct{})
+		g.parked <- c
+		<-c
+	}
 	l, ok := g.d.Acquire(ctx)
 	g.mu.Lock()
 	park := (!ok && g.parkFail) || (ok && g.parkOK)
@@ -65,7 +75,7 @@ func (x *gatedListener) OnSuccess() { x.pause(); x.l.OnSuccess() }
 func (x *gatedListener) OnIgnore()  { x.pause(); x.l.OnIgnore() }
 func (x *gatedListener) OnDropped() { x.pause(); x.l.OnDropped() }
 func (g *gate) armRelease()         { g.mu.Lock(); g.parkRelease = true; g.mu.Unlock() }
-func (g *gate) arm(fail, ok bool) { g.mu.Lock(); g.parkFail, g.parkOK = fail, ok; g.mu.Unlock() }
+func (g *gate) arm(fail, ok bool)   { g.mu.Lock(); g.parkFail, g.parkOK = fail, ok; g.mu.Unlock() }
 
 func newGated(limitN int) (*gate, *strategy.PreciseStrategy) {
 	st := strategy.NewPreciseStrategy(limitN)
@@ -621,6 +631,62 @@ func raceQ1(t *testing.T) (res raceResult) {
 	return
 }
 
+// Q3: the token a completion frees is taken by a caller that goes straight to the delegate before the completion's hand-off reaches it:
+// the hand-off finds no capacity.  The waiter it had in mind must still be waiting in the backlog, and be served by the next completion.
+func raceQ3(t *testing.T) (res raceResult) {
+	res.Sig = "queue:order:waiter-dropped-by-failed-handoff"
+	synctest.Test(t, func(t *testing.T) {
+		g, st := newGated(1)
+		q := limiter.NewQueueBlockingLimiterFromConfig(g, limiter.QueueLimiterConfig{Ordering: limiter.OrderingFIFO, MaxBacklogSize: 5, MaxBacklogTimeout: 10 * time.Second})
+		holder, _ := q.Acquire(context.Background())
+		type ans struct {
+			l  core.Listener
+			ok bool
+		}
+		d1 := make(chan ans, 1)
+		go func() { l, ok := q.Acquire(context.Background()); d1 <- ans{l, ok} }()
+		synctest.Wait()
+		time.Sleep(time.Second)
+		g.mu.Lock()
+		g.parkBefore = true // park the hand-off's delegate Acquire before it reaches the delegate
+		g.mu.Unlock()
+		go holder.OnSuccess()
+		c := <-g.parked
+		thief, ok := g.d.Acquire(context.Background()) // somebody else takes the freed token
+		if !ok {
+			res.Failed, res.Detail = true, "setup: the freed token was not available"
+		}
+		close(c)
+		synctest.Wait()
+		if n := q.VerifBacklogLen(); n != 1 && !res.Failed {
+			res.Failed = true
+			res.Detail = fmt.Sprintf("after a hand-off that found no capacity the backlog holds %d entries, 1 caller is waiting", n)
+		}
+		if thief != nil {
+			thief.OnIgnore() // gives the token back without going through the queue
+		}
+		synctest.Wait()
+		if h, ok := q.Acquire(context.Background()); ok { // the next completion through the queue serves the waiter
+			h.OnSuccess()
+		}
+		synctest.Wait()
+		select {
+		case a := <-d1:
+			if a.ok {
+				a.l.OnIgnore()
+			}
+		default:
+			if !res.Failed {
+				res.Failed = true
+				res.Detail = fmt.Sprintf("the waiter was not served by the next completion (%d backlog entries, %d/1 tokens held)", q.VerifBacklogLen(), st.GetBusyCount())
+			}
+		}
+		time.Sleep(30 * time.Second)
+		synctest.Wait()
+	})
+	return
+}
+
 // only signatures starting with one of `only` are reported (empty = all)
 var raceOnly []string
 
@@ -668,13 +734,16 @@ func TestC19Races(t *testing.T) {
 	// a token handed to a waiter that has left must come back: a leaked token shrinks the pool for good
 	raceOnly = []string{"queue:token-leak"}
 	runRaces(t, rep, raceF9c)
+	// a waiter must not be dropped from the backlog by a hand-off that found no capacity
+	raceOnly = []string{"queue:order"}
+	runRaces(t, rep, raceQ3)
 }
 
 func TestC11Races(t *testing.T) {
 	rep := NewReport("C11races")
 	defer rep.Write(t)
 	raceOnly = []string{"queue:order"}
-	runRaces(t, rep, raceQ1)
+	runRaces(t, rep, raceQ1, raceQ3)
 }
 
 func TestC02Races(t *testing.T) {
